@@ -659,10 +659,12 @@ def forward_single_use_temps(fn) -> int:
                     if any(isinstance(x, ast.Name) and x.id == t for sc in _nested_scopes(fn) for x in ast.walk(sc)):
                         continue
                     occ = counts.get(t, [])
-                    if len(occ) != 2 or not isinstance(nxt, (ast.Expr, ast.Assign, ast.Return, ast.AugAssign)):
+                    if len(occ) != 2 or not isinstance(nxt, (ast.Expr, ast.Assign, ast.Return, ast.AugAssign, ast.If)):
                         continue
                     load = next((n for n in occ if isinstance(n.ctx, ast.Load)), None)
-                    if load is None or not any(load is x for x in ast.walk(nxt)):
+                    # for an `if`, only its test is evaluated right after the definition:  ok = <cond>; if ok: ...  (a named sub-condition)
+                    scope = nxt.test if isinstance(nxt, ast.If) else nxt
+                    if load is None or not any(load is x for x in ast.walk(scope)):
                         continue
                     # ancestors of the load inside nxt
                     chain = []
@@ -670,11 +672,16 @@ def forward_single_use_temps(fn) -> int:
                     while x is not nxt and x is not None:
                         chain.append(x)
                         x = getattr(x, "_parent", None)
-                    if x is None or any(isinstance(c, (ast.Lambda, ast.ListComp, ast.SetComp, ast.DictComp, ast.GeneratorExp, ast.IfExp, ast.BoolOp)) for c in chain):
+                    if x is None or any(isinstance(c, (ast.Lambda, ast.ListComp, ast.SetComp, ast.DictComp, ast.GeneratorExp, ast.IfExp)) for c in chain):
+                        continue
+                    # inside `a and b` / `a or b` only the first operand is evaluated unconditionally
+                    if any(isinstance(c, ast.BoolOp) and not any(c.values[0] is a or c.values[0] is load for a in chain + [load]) for c in chain):
                         continue
                     ok = True
-                    for c in ast.walk(nxt):
+                    for c in ast.walk(scope):
                         if isinstance(c, (ast.Call, ast.Await, ast.Yield, ast.YieldFrom, ast.NamedExpr)):
+                            if isinstance(nxt, ast.If) and (c.lineno, c.col_offset) > (load.lineno, load.col_offset) and not any(c is a for a in chain):
+                                continue  # evaluated after the flag in the test's left-to-right order
                             if not (isinstance(c, ast.Call) and any(c is a for a in chain) and _is_path(c.func)):
                                 ok = False
                     if not ok:
@@ -913,6 +920,81 @@ def substitute_module_aliases(prog) -> int:
             if not changed:
                 break
     return total
+
+
+def hoist_walrus(fn) -> int:
+    """`if len(d := fp.read(4)) != 4:`  ->  `d = fp.read(4)` followed by `if len(d) != 4:` - for an assignment expression that is
+    evaluated unconditionally and first in a simple statement or in the test of an `if` (not in a loop header, a comprehension,
+    a lambda, a conditional expression or a later operand of and/or)."""
+    done = 0
+    for _ in range(16):
+        changed = False
+        for holder in [fn] + list(_own_nodes(fn)):
+            for attr in ("body", "orelse", "finalbody"):
+                blk = getattr(holder, attr, None)
+                if not isinstance(blk, list):
+                    continue
+                for i, st in enumerate(blk):
+                    if not isinstance(st, (ast.If, ast.Expr, ast.Assign, ast.Return, ast.AugAssign)):
+                        continue
+                    scope = st.test if isinstance(st, ast.If) else st
+                    # an `elif` is an If alone in an orelse list: hoisting there would run the assignment inside the else branch, which is right
+                    w = next((n for n in ast.walk(scope) if isinstance(n, ast.NamedExpr) and isinstance(n.target, ast.Name)), None)
+                    if w is None:
+                        continue
+                    chain = []
+                    x = w
+                    while x is not st and x is not None:
+                        chain.append(x)
+                        x = getattr(x, "_parent", None)
+                    if x is None or any(isinstance(c, (ast.Lambda, ast.ListComp, ast.SetComp, ast.DictComp, ast.GeneratorExp, ast.IfExp)) for c in chain):
+                        continue
+                    if any(isinstance(c, ast.BoolOp) and not any(c.values[0] is a for a in chain) for c in chain if c is not w):
+                        continue
+                    # nothing with an effect is evaluated before the walrus: every other call in the statement contains it
+                    ok = True
+                    for c in ast.walk(scope):
+                        if isinstance(c, (ast.Call, ast.Await, ast.Yield, ast.YieldFrom)) and not any(c is a for a in chain) and not any(c is y for y in ast.walk(w.value)):
+                            # a call evaluated after the walrus (a later argument / comparator) is fine when it comes later in source order
+                            if (c.lineno, c.col_offset) < (w.lineno, w.col_offset):
+                                ok = False
+                        if isinstance(c, ast.NamedExpr) and c is not w and not any(c is y for y in ast.walk(w.value)):
+                            if (c.lineno, c.col_offset) < (w.lineno, w.col_offset):
+                                ok = False
+                    if not ok:
+                        continue
+                    asg = ast.Assign(targets=[ast.Name(id=w.target.id, ctx=ast.Store())], value=w.value)
+                    ast.copy_location(asg, st)
+                    ast.fix_missing_locations(asg)
+                    if hasattr(st, "_module"):
+                        for y in ast.walk(asg):
+                            if not hasattr(y, "_module"):
+                                y._module = st._module
+                    rep = ast.copy_location(ast.Name(id=w.target.id, ctx=ast.Load()), w)
+                    if hasattr(st, "_module"):
+                        rep._module = st._module
+                    par = w._parent
+                    for f, v in ast.iter_fields(par):
+                        if v is w:
+                            setattr(par, f, rep)
+                        elif isinstance(v, list):
+                            for k, e in enumerate(v):
+                                if e is w:
+                                    v[k] = rep
+                    blk.insert(i, asg)
+                    changed = True
+                    done += 1
+                    break
+                if changed:
+                    break
+            if changed:
+                break
+        if not changed:
+            break
+        for node in ast.walk(fn):
+            for child in ast.iter_child_nodes(node):
+                child._parent = node
+    return done
 
 
 def _literal(v):
@@ -1226,6 +1308,7 @@ def run(prog) -> int:
         changed = 0
         for node in ast.walk(m.tree):
             if isinstance(node, (ast.FunctionDef, ast.AsyncFunctionDef)):
+                changed += hoist_walrus(node)
                 changed += split_chained_assignments(node)
                 changed += split_tuple_assignments(node)
                 changed += coalesce_copies(node)
